@@ -1537,8 +1537,54 @@ def selftest():
 
 
 def replay(path):
-    """Re-runs the check a replay file came from (same property, tier, seed)."""
+    """Re-executes exactly the failing inputs recorded in a replay file against /repo's current tree and judges
+    them again (TLC for recorded events and day records, the recorded expectation for generated behaviours).
+    Exit 1 (with a VIOLATION line) if any of them still fails, 0 if all pass now."""
     rp = json.load(open(path))
     v = vlib.Verdict(rp["property"], rp["tier"], rp["seed"])
-    REGISTRY[rp["property"]](v)
+    v.cov["rule"] = "replay of the %d recorded violations of %s" % (len(rp["violations"]), os.path.basename(path))
+    events, days, generated = [], set(), []
+    for viol in rp["violations"]:
+        what, key, det = viol["what"], viol["key"], viol.get("detail", {})
+        if what.startswith("DaySweep:"):
+            days.add(key["n"])
+        elif what.startswith(("EventTrace:", "SessionTrace:")):
+            events.append((key["op"], key["a"], key.get("aspect")))
+        elif "expected" in det:
+            op = key.get("op") or key.get("check")
+            if "args" in key:
+                args = key["args"]
+            elif "clock" in key:
+                args = [key["clock"], list(key["text"]), list(key["pic"])]
+            elif op.endswith(".unjson"):
+                args = [list(key["text"])]
+            elif op == "F.try_new":
+                args = [list(key["pic"])]
+            elif "pic" in key:
+                args = [PROBE_TS, list(key["pic"])]
+            else:
+                continue
+            generated.append((op, args, tuple(det["expected"])))
+        elif what.startswith("Replay:"):
+            args = [list(x) if isinstance(x, str) else x for x in key["a"]]
+            generated.append((key["op"], args, ("nopanic",)))
+    log("[replay] %d events, %d days, %d generated behaviours" % (len(events), len(days), len(generated)))
+    if events:
+        asp = {a for _, _, a in events if a} or {"result", "range", "panic"}
+        for profile in ({"dev", "release"} if rp["property"] == "C03" else {"release"}):
+            eventtrace(v, "replay_" + profile, [(op, a) for op, a, _ in events], asp, profile=profile)
+    if days:
+        ranges = vlib.merge_ranges([(n, n) for n in days] + [(n - 1, n - 1) for n in days if n > -719162])
+        everything = {"ymd", "rt", "fd", "valid", "dow", "acc", "ordp", "eq", "ldm", "tr", "rd", "trmono", "rdmono", "ttr", "trd", "otr",
+                      "ord", "us", "ext", "tacc", "dt", "tt", "cmpp", "cmpd", "of", "on", "ou", "oext", "agree_d_ts_tr", "agree_d_ts_rd",
+                      "agree_ts_od_tr", "agree_ts_od_rd"}
+        wanted = {vv["key"]["check"] for vv in rp["violations"] if vv["what"].startswith("DaySweep:")} & everything
+        daysweep(v, "replay", ranges, "cal,dtr,ttr,otr,tsx,odx", wanted, 5000,
+                 extra=["--fixed", "0,1,2,3,4,5,6,7,8,9,10,11,12", "--ntimes", "0", "--nrand", "2"])
+    if generated:
+        for profile in (("dev", "release") if rp["property"] == "C03" else ("release",)):
+            for op, args, r, exp in replay_plan(v, "replay_gen_" + profile, generated, profile=profile):
+                v.mismatch("Replay:" + op, {"op": op, "aspect": "replayed", "a": args}, {"observed": r, "expected": list(exp)})
+    # a replay must not overwrite the property's evidence file
+    vlib.EVID = os.path.join(vlib.WORK, "replay_evidence")
     return v.finish()
